@@ -64,7 +64,11 @@ func (s *Streamer) Stream(ctx context.Context, sendTransaction SendTransactionFu
 	ctx, cancel := context.WithCancel(ctx)
 	defer cancel()
 	conn, err := newSlaveConnection(func() (conn dumpConn, e error) {
-		return mysql.NewDumpConn(s.dsn, ctx)
+		dc, e := mysql.NewDumpConn(s.dsn, ctx)
+		if e != nil {
+			return nil, e
+		}
+		return &ctxDumpConn{DumpConn: dc, ctx: ctx}, nil
 	})
 	if err != nil {
 		return err.msgf("newMysqlConn fail.")
@@ -84,6 +88,19 @@ func (s *Streamer) Stream(ctx context.Context, sendTransaction SendTransactionFu
 		return err.msgf("parseEvents fail in pos: %+v", err)
 	}
 	return nil
+}
+
+// ctxDumpConn runs the set-up query of the replication handshake under the
+// context of the stream, so that a cancellation is honoured while the master's
+// answer is outstanding.
+type ctxDumpConn struct {
+	*mysql.DumpConn
+	ctx context.Context
+}
+
+func (c *ctxDumpConn) Exec(query string) error {
+	_, err := c.ExecContext(c.ctx, query, nil)
+	return err
 }
 
 //Error 每次使用Stream后需要检测Error
